@@ -638,7 +638,7 @@ theorem stopOut_seen (t : Att) : ∃ r, (stopOut t).resp = some r ∧ r.err = t.
 whenever a stage of the LAST attempt raised one, and the recorded error is one that a stage
 raised during the call (or was already recorded in the response handed in, or is the context's
 error assigned by the wait before a retry). -/
-theorem doLoop_seen (s : Stack) (hl : s.Loud) :
+theorem doLoop_seen (s : Stack) (hl : s.Loud) (hrh : ∀ a, s.retryHookAt a = .nop) :
     ∀ fuel a prev, (doLoop Fixes.all s fuel a prev).exhausted = false →
       ∃ r tl, (doLoop Fixes.all s fuel a prev).resp = some r ∧
       (doLoop Fixes.all s fuel a prev).atts.getLast? = some tl ∧
@@ -673,7 +673,7 @@ theorem doLoop_seen (s : Stack) (hl : s.Loud) :
         · rename_i hret hcr hnr
           rcases hr with hr | ⟨hr, _⟩
           · obtain ⟨r0, hr0⟩ := Option.isSome_iff_exists.mp hr
-            simp only [hr0] at hex ⊢
+            simp only [hr0, hrh a, applyHook] at hex ⊢
             split
             · exact ⟨_, _, rfl, rfl, by simp, by intro e he; simp at he; right; right; exact he.symm⟩
             · rename_i hctx
